@@ -249,7 +249,9 @@ def run_seq(c):
         except Exception as e:  # noqa: BLE001
             note = 'raise:' + type(e).__name__
         steps.append({'outs': outs[n0:], 'note': note,
-                      'remote_brief': [[s.epr, s.metadata_version] for s in wsd._remote_services.values()]})
+                      'remote_brief': [[s.epr, s.metadata_version] for s in wsd._remote_services.values()],
+                      'remote_content': [[s.epr, [[t.namespace, t.localname] for t in (s.types or [])],
+                                          [] if s.scopes is None else list(s.scopes.text)] for s in wsd._remote_services.values()]})
 
     def canon_id(x):
         if x in own_ids:
